@@ -50,6 +50,7 @@ def configs(tier, seed):
             cfgs.append(dict(backend=b, backoff='r10', n=2, messages=2, d=1, dd=2 if q else 3, menu={}, store_pool=2, relay_pool=1))
             cfgs.append(dict(backend=b, backoff='r10', n=2, messages=1, d=1, dd=3, menu={}, bounce_queue='separate-real'))
         cfgs.append(dict(backend=b, backoff='r10', n=2, messages=1, d=1, dd=3, menu={}, senders={0: ''}))
+        cfgs.append(dict(backend=b, backoff='r0x2', n=2, messages=1, d=0, dd=3, menu={}, unicode_rcpts=True, unicode_replies=True))
         cfgs.append(dict(backend=b, backoff='r10', n=2, messages=0, prestored=1, d=1, dd=3, menu={}))
         cfgs.append(dict(backend=b, backoff='r10-20', n=1, messages=1, script=[['enqueue', 0], ['flush']], d=2, dd=3, menu=dict(per_recipient=False)))
         cfgs.append(dict(backend=b, backoff='r0x2', n=2, messages=1, d=0, dd=3, menu=dict(reversed_maps=True, boom=False, reply_ok=False)))
